@@ -222,7 +222,7 @@ example : hierPrefix.isPrefixOf ("GEOTYPE ".toList ++ ['=', ' '] ++ ffs2c "it's"
 
 /-- **write_key accepts exactly** (repaired code incl. fixes/C16-5; constants and tables generated from the source):
     the key is not reserved (prefix table of `reservedFitsKeyword`), not empty, has no blank at either end, does not
-    start with `HIERARCH ` and is not END / HISTORY / CONTINUE; a key of at most 8 characters is made of upper-case
+    start with `HIERARCH ` and is not END / HISTORY / CONTINUE / EXTNAME / HDUNAME; a key of at most 8 characters is made of upper-case
     letters and digits and the value, every quote counted twice, has at most 68 characters; a longer key is
     printable ASCII without `=` and lower-case letters, has at most 66 characters, and key and value (quotes counted
     twice) together at most 67; the value is printable ASCII.  Everything else is rejected (`C16_reject_unchanged`).
@@ -231,7 +231,8 @@ theorem C16_validate_iff (key val : Str) :
     (validate key val = none ↔
       (¬ ∃ p ∈ C16.reservedPrefixes, p.1 <+: key) ∧
       (key ≠ [] ∧ key.head? ≠ some ' ' ∧ key.getLast? ≠ some ' ') ∧
-      (hierPrefix.isPrefixOf key = false ∧ key ≠ endKey ∧ key ≠ historyKey ∧ key ≠ continueKey) ∧
+      (hierPrefix.isPrefixOf key = false ∧ key ≠ endKey ∧ key ≠ historyKey ∧ key ≠ continueKey ∧
+        key ≠ extnameKey ∧ key ≠ hdunameKey) ∧
       (key.length ≤ 8 → Alnum key ∧ val.length + countQuotes val ≤ 68) ∧
       (9 ≤ key.length → ((∀ c ∈ key, printable c = true) ∧ '=' ∉ key ∧ ∀ c ∈ key, c.isLower = false) ∧
         key.length ≤ 66 ∧ key.length + (val.length + countQuotes val) ≤ 67) ∧
